@@ -114,6 +114,27 @@ Theorem string_result_checked_first : forall (cap : N) (m : mem) (total : N), In
   (Inv m' /\ maxb m' = maxb m /\ (r = ROk \/ m' = m)) /\ check_first t = true /\ (r = ROom -> host_total t = 0).
 Proof. exact string_checked_step. Qed.
 
+(* exact answers of the repaired constructors (Ok exactly when the request fits; exact charge), and no abort when the host
+   can grant the limit *)
+Theorem array_new_total : forall (cap e : N) (m : mem) (n : Z), maxb m < U64 -> Inv m -> maxb m <= cap ->
+  let '(r, m', t) := op_array cap e m n in
+  (r = ROk <-> (0 <= n)%Z /\ held m + SZ_ARRAY + Z.to_N n * e <= maxb m) /\
+  (r = ROk -> held m' = held m + SZ_ARRAY + Z.to_N n * e) /\ r <> RAbort /\ r <> RPanic.
+Proof. exact array_exact. Qed.
+Theorem string_result_total : forall (cap : N) (m : mem) (total : N), maxb m <= ISIZE_MAX -> Inv m -> maxb m <= cap ->
+  let '(r, m', t) := op_string_checked cap m total in
+  (r = ROk <-> held m + SZ_STRING + total <= maxb m) /\
+  (r = ROk -> held m' = held m + SZ_STRING + total) /\ r <> RAbort /\ r <> RPanic.
+Proof. exact string_checked_exact. Qed.
+(* no allocating primitive answers with a (Rust) panic, whatever its arguments *)
+Theorem no_primitive_panics : forall (cap : N) (m : mem) (o : gop), fst (fst (gstep cap m o)) <> RPanic.
+Proof. exact gstep_never_panics. Qed.
+(* the accounting formulas and growth policies the model uses are the ones read from the source *)
+Example extracted_formulas_as_modelled :
+  array_elem_bytes = [("Ints"%string, 8); ("Floats"%string, 8); ("Bools"%string, 1); ("Objects"%string, 8)] /\
+  vec_elem_bytes = array_elem_bytes /\ SZ_VALUE = 8 /\ VEC_GROWTH_FACTOR = 2 /\ VEC_MIN_CAP = 4 /\ GC_GROWTH_FACTOR = 2.
+Proof. vm_compute. repeat split; reflexivity. Qed.
+
 (* ---- the loops the tie executes *)
 (* the accelerated push loop (jumps over pushes that fit the capacity) computes exactly what replaying every
    push computes, whenever it finishes within its bound *)
